@@ -630,6 +630,62 @@ theorem kill_without_sync_loses_balance (s : State) (b : Bal) (D : Int → Prop)
   intro e
   exact hne (Option.some.inj e).symm
 
+/-! #### field writers (password, e-mail) on a user whose money moves -/
+
+/-- what the source says: every function of package `ptt` that writes `.PASSWDS` does so through a cmbbs field
+writer or through `passwdSyncUpdate`; none hands a whole record to `cmbbs.PasswdUpdate` directly (a whole record
+read earlier would carry a stale Money past the re-sync).  `ChangePasswd` and `ChangeEmail` are field writers, and
+their fields lie inside the record and apart from the Money field. -/
+theorem no_whole_record_writer_bypasses_sync :
+    (∀ w ∈ Gen.Money.passwdWriters, w.2 ≠ "direct") ∧
+    ("ChangePasswd", "field") ∈ Gen.Money.passwdWriters ∧ ("ChangeEmail", "field") ∈ Gen.Money.passwdWriters ∧
+    Gen.Money.passwdHashOffset + Gen.Money.passwdHashSize ≤ Gen.Money.moneyOffset ∧
+    Gen.Money.moneyOffset + 4 ≤ Gen.Money.emailOffset ∧
+    Gen.Money.emailOffset + Gen.Money.emailSize ≤ Gen.Money.recSize := by decide
+
+/-- a field write on a valid slot, of any bytes, into any field of the record that does not meet the Money field:
+it succeeds, SHM is untouched, the Money bytes of every record (this one included) are untouched — so whatever
+agreement held before still holds, at any point of any history — and all other records are byte-identical. -/
+theorem field_write_keeps_agreement (s : State) (b : Bal) (D : Int → Prop) (u : Int) (off : Nat) (bs : List Nat)
+    (h : Agree s b D) (hu : Valid u) (hin : off + bs.length ≤ Gen.Money.recSize)
+    (hapart : off + bs.length ≤ Gen.Money.moneyOffset ∨ Gen.Money.moneyOffset + 4 ≤ off) :
+    (fieldWrite s u off bs).2 = .none ∧ (fieldWrite s u off bs).1.shm = s.shm ∧
+    Agree (fieldWrite s u off bs).1 b D ∧
+    ∀ v, Valid v → v ≠ u → ∃ f f', s.file = some f ∧ (fieldWrite s u off bs).1.file = some f' ∧
+      record f' v = record f v := by
+  obtain ⟨⟨hs, f, hf, hlen⟩, hshm, hdisk⟩ := h
+  obtain ⟨h0, hk, _⟩ := valid_bounds u hu
+  have hv : uidIsValid u = true := (uidIsValid_iff u).2 hu
+  have h1 : Gen.Money.recSize * ((u - 1).toNat + 1) ≤ Gen.Money.recSize * MAX := Nat.mul_le_mul_left _ hk
+  rw [Nat.mul_succ] at h1
+  have hw : Gen.Money.recSize * (u - 1).toNat + off + bs.length ≤ f.length := by rw [hlen]; omega
+  have e : fieldWrite s u off bs =
+      ({ s with file := some (writeAt f (Gen.Money.recSize * (u - 1).toNat + off) bs) }, .none) := by
+    unfold fieldWrite
+    simp only [hv, Bool.not_true, Bool.false_eq_true, if_false, hf, toIdx_valid u hu]
+    rw [if_neg (by omega)]
+    rfl
+  rw [e]
+  have hlay := gen_facts.2.2.2.1
+  refine ⟨rfl, rfl, ⟨⟨hs, _, rfl, by rw [writeAt_length _ _ _ hw, hlen]⟩, hshm, ?_⟩, ?_⟩
+  · intro v hv' hD
+    have hd := hdisk v hv' hD
+    unfold diskAt at hd ⊢
+    rw [hf] at hd
+    simp only [Option.bind_some] at hd ⊢
+    have : moneyBytes (writeAt f (Gen.Money.recSize * (u - 1).toNat + off) bs) v = moneyBytes f v := by
+      unfold moneyBytes
+      apply slice_writeAt_disjoint _ _ _ _ _ hw
+      by_cases hvu : v = u
+      · subst hvu; omega
+      · rcases blocks_apart _ _ (slot_ne u v hu hv' hvu) with h2 | h2 <;> omega
+    rw [this]; exact hd
+  · intro v hv' hne
+    refine ⟨f, _, hf, rfl, ?_⟩
+    unfold record
+    apply slice_writeAt_disjoint _ _ _ _ _ hw
+    rcases blocks_apart _ _ (slot_ne u v hu hv' hne) with h2 | h2 <;> omega
+
 /-! #### balances never go negative -/
 
 /-- if every balance is ≥ 0 at the start and every `set` and every registration stores a value ≥ 0, then after any history inside
